@@ -128,18 +128,21 @@ fn generated_case(ctx: &Ctx, ch: &mut Ch) -> Outcome {
     check_text(ctx, &text, crate::checks::c02::step_budget(ctx.tier))
 }
 
+#[derive(Clone, Copy, PartialEq, Eq, Debug)]
+pub enum Base {
+    Int,
+    Bool,
+    Fun,
+}
+
 /// Conversion put to use, exhaustively for a small family: a function that returns its argument
 /// unchanged is annotated `(b : bool) -> (x : int) -> T1 -> T2` for every pair of type expressions
-/// over `b`, `x` and three type-level functions; it is applied to constants and to an inhabitant
-/// of `T1` at those constants. Whenever gram accepts the annotation, the value must inhabit `T2` at
-/// the constants.
-fn coercions_part(ctx: &Ctx) {
-    #[derive(Clone, Copy, PartialEq)]
-    enum B {
-        Int,
-        Bool,
-        Fun,
-    }
+/// over `b`, `x`, three type-level functions and small definition groups; it is applied to
+/// constants and to an inhabitant of `T1` at those constants. `f(declarations, call, T2 at the
+/// constants)` is called for the cases of this shard; it returns false to stop. Returns (cases
+/// handed out, number of type expressions).
+pub fn for_each_coercion(shard: u32, nshards: u32, mut f: impl FnMut(&str, &str, Base) -> bool) -> (u64, usize) {
+    use Base as B;
     let base = [("int", B::Int), ("bool", B::Bool), ("int -> int", B::Fun)];
     type Sem = Box<dyn Fn(bool, i64) -> B>;
     let mut tys: Vec<(String, Sem)> = vec![];
@@ -149,12 +152,17 @@ fn coercions_part(ctx: &Ctx) {
     for (na, va) in base {
         for (nb, vb) in base {
             tys.push((format!("if b then {na} else {nb}"), Box::new(move |b, _| if b { va } else { vb })));
-            tys.push((format!("if x < 1 then {na} else {nb}"), Box::new(move |_, x| if x < 1 { va } else { vb })));
-            if na != nb {
-                tys.push((format!("if x >= 1 then {na} else {nb}"), Box::new(move |_, x| if x >= 1 { va } else { vb })));
-                tys.push((format!("if x <= 0 then {na} else {nb}"), Box::new(move |_, x| if x <= 0 { va } else { vb })));
-                tys.push((format!("if x == 1 then {na} else {nb}"), Box::new(move |_, x| if x == 1 { va } else { vb })));
-                tys.push((format!("if x > 0 then {na} else {nb}"), Box::new(move |_, x| if x > 0 { va } else { vb })));
+            if na == nb {
+                tys.push((format!("if x < 1 then {na} else {nb}"), Box::new(move |_, _| va)));
+                continue;
+            }
+            // Every comparison operator against both constants the function is applied at.
+            for c in [0i64, 1] {
+                tys.push((format!("if x < {c} then {na} else {nb}"), Box::new(move |_, x| if x < c { va } else { vb })));
+                tys.push((format!("if x <= {c} then {na} else {nb}"), Box::new(move |_, x| if x <= c { va } else { vb })));
+                tys.push((format!("if x == {c} then {na} else {nb}"), Box::new(move |_, x| if x == c { va } else { vb })));
+                tys.push((format!("if x > {c} then {na} else {nb}"), Box::new(move |_, x| if x > c { va } else { vb })));
+                tys.push((format!("if x >= {c} then {na} else {nb}"), Box::new(move |_, x| if x >= c { va } else { vb })));
             }
         }
     }
@@ -166,14 +174,22 @@ fn coercions_part(ctx: &Ctx) {
     tys.push(("if b then (if b then int else bool) else bool".to_owned(), Box::new(|b, _| if b { B::Int } else { B::Bool })));
     tys.push(("if b then int else (if b then int else bool)".to_owned(), Box::new(|b, _| if b { B::Int } else { B::Bool })));
     tys.push(("((k : type) => k) (if b then int else bool)".to_owned(), Box::new(|b, _| if b { B::Int } else { B::Bool })));
+    // Types that are definition groups, of different lengths, with a common prefix.
+    tys.push(("(g1 = int; g1)".to_owned(), Box::new(|_, _| B::Int)));
+    tys.push(("(g1 = int; g2 = bool; g1)".to_owned(), Box::new(|_, _| B::Int)));
+    tys.push(("(g1 = int; g2 = bool; g2)".to_owned(), Box::new(|_, _| B::Bool)));
+    tys.push(("(g1 = int; g2 = bool; g3 = int -> int; g1)".to_owned(), Box::new(|_, _| B::Int)));
+    tys.push(("(g1 = int; g2 = bool; g3 = int -> int; g2)".to_owned(), Box::new(|_, _| B::Bool)));
+    tys.push(("(g1 = int; g2 = bool; g3 = int -> int; g3)".to_owned(), Box::new(|_, _| B::Fun)));
+    tys.push(("(g1 = int; g2 = if b then g1 else bool; g2)".to_owned(), Box::new(|b, _| if b { B::Int } else { B::Bool })));
     let mut idx = 0u64;
     let mut total = 0u64;
-    for (t1, sem1) in &tys {
-        for (t2, _) in &tys {
+    'all: for (t1, sem1) in &tys {
+        for (t2, sem2) in &tys {
             for cb in [true, false] {
                 for cx in [0i64, 1] {
                     idx += 1;
-                    if idx % u64::from(ctx.nshards) != u64::from(ctx.shard) {
+                    if idx % u64::from(nshards) != u64::from(shard) {
                         continue;
                     }
                     let arg = match sem1(cb, cx) {
@@ -181,24 +197,36 @@ fn coercions_part(ctx: &Ctx) {
                         B::Bool => "true",
                         B::Fun => "((q : int) => q + 1)",
                     };
-                    let text = format!(
-                        "t : (bool -> type) = (c : bool) => if c then int else bool; u : (bool -> type) = (c : bool) => if c then int else int; w : (int -> type) = (n : int) => if n == 0 then bool else int; co : ((b : bool) -> (x : int) -> ({t1}) -> {t2}) = (b : bool) => (x : int) => (v : {t1}) => v; co {cb} {cx} {arg}"
+                    let decls = format!(
+                        "t : (bool -> type) = (c : bool) => if c then int else bool; u : (bool -> type) = (c : bool) => if c then int else int; w : (int -> type) = (n : int) => if n == 0 then bool else int; co : ((b : bool) -> (x : int) -> ({t1}) -> {t2}) = (b : bool) => (x : int) => (v : {t1}) => v; "
                     );
+                    let call = format!("co {cb} {cx} {arg}");
                     total += 1;
-                    let r = check_text(ctx, &text, 20_000);
-                    if r.is_err() {
-                        ctx.settle(r);
-                        if ctx.peek_violations() >= 6 {
-                            return;
-                        }
+                    if !f(&decls, &call, sem2(cb, cx)) {
+                        break 'all;
                     }
                 }
             }
         }
     }
+    (total, tys.len())
+}
+
+fn coercions_part(ctx: &Ctx) {
+    let (total, ntypes) = for_each_coercion(ctx.shard, ctx.nshards, |decls, call, _| {
+        let text = format!("{decls}{call}");
+        let r = check_text(ctx, &text, 20_000);
+        if r.is_err() {
+            ctx.settle(r);
+            if ctx.peek_violations() >= 6 {
+                return false;
+            }
+        }
+        true
+    });
     ctx.evaluated(total);
     ctx.exhaustive("coercions");
-    ctx.note(&format!("coercions: an identity function annotated `(b : bool) -> (x : int) -> T1 -> T2` for every pair of {} type expressions (base types, conditionals on b and on x, applications of three type-level functions), applied at b in {{true, false}}, x in {{0, 1}} to an inhabitant of T1", tys.len()));
+    ctx.note(&format!("coercions: an identity function annotated `(b : bool) -> (x : int) -> T1 -> T2` for every pair of {ntypes} type expressions (base types, conditionals on b and on x with every comparison operator, applications of three type-level functions, definition groups of different lengths), applied at b in {{true, false}}, x in {{0, 1}} to an inhabitant of T1"));
 }
 
 const REGRESSIONS: [&str; 5] = [
